@@ -12,7 +12,9 @@ RULE = ("vranks legs: states = distinct canonical global states (monitor fields 
 import os, subprocess
 from concurrent.futures import ThreadPoolExecutor
 
-QUICK = [(3, 1, 3, 0), (3, 2, 2, 0), (3, 1, 2, 1), (2, 2, 3, 0), (2, 2, 3, 1), (1, 2, 3, 0)]
+# quick: every leg closes in seconds even on a heavily loaded machine (N3_T1_M3, 1.2 M states, is 13 s idle but was seen to
+# exceed a 55 s deadline at load average 150, so it lives in the thorough tier together with N3_T2_M3)
+QUICK = [(3, 2, 2, 0), (3, 1, 2, 0), (3, 1, 2, 1), (2, 2, 3, 0), (2, 2, 3, 1), (1, 2, 3, 0)]
 # thorough: complete DESIGN bound for N=3, then N=4/5 by increasing workload; the first two are expected to hit the deadline / cap on a loaded machine
 THOROUGH = [(5, 1, 2, 0), (4, 1, 3, 0), (4, 2, 2, 0), (3, 2, 3, 0), (3, 2, 3, 1), (4, 1, 2, 0), (5, 1, 1, 0), (5, 1, 1, 1),
             (4, 1, 2, 1), (3, 1, 3, 0), (2, 2, 3, 0), (2, 2, 3, 1), (1, 2, 3, 0)]
